@@ -119,6 +119,19 @@ def T(params=None, decl="", inv=None, guard=None, sync=None, assign=None, select
                       init="id0", transitions=[X.transition("id0", "id1", select=select, guard=guard, sync=sync, assign=assign)])
 
 
+LSC_OBS = ('<lsc><name>Obs</name><parameter>const int a, const int b</parameter><type>Universal</type><mode>Invariant</mode><declaration></declaration>'
+           '<yloccoord number="0" y="10"/><yloccoord number="1" y="20"/><yloccoord number="2" y="30"/>'
+           '<instance id="id7" x="0" y="0"><name>P</name></instance><instance id="id8" x="10" y="0"><name>P2</name></instance>'
+           '<prechart x="0" y="0"><lsclocation>1</lsclocation></prechart>'
+           '<message x="0" y="0"><source ref="id7"/><target ref="id8"/><lsclocation>0</lsclocation><label kind="message">c[0]</label></message>'
+           '<condition x="0" y="0"><anchor instanceid="id7"/><lsclocation>2</lsclocation><temperature>hot</temperature>'
+           '<label kind="condition">x &gt;= a + b</label></condition></lsc>')
+
+
+def lsc_nta(d, instantiation):
+    return X.nta(d, [T()], "P = T(); P2 = T();\n%s\nsystem P, P2;" % instantiation).replace("<system>", LSC_OBS + "<system>", 1)
+
+
 SYS = "P = T(); system P;"
 
 # context id -> (builder(decl, e) -> document, compile_time?)   e is int valued
@@ -140,6 +153,9 @@ CONTEXTS = {
     "argument-of-a-partial-instance-of-one": (lambda d, e: X.nta(d, [T(params="const int p, const int p2")],
                                                                     "Q(const int c, const int c2) = T(c, c2); R(const int r) = Q(r, 1); P = R(%s); system P;" % e), True),
     "argument-inside-a-partial-instance": (lambda d, e: X.nta(d, [T(params="const int p, const int p2")], "Q(const int c) = T(c, %s); P = Q(1); system P;" % e), True),
+    # arguments of an LSC chart and of a partial instance of one (their instantiations are kept apart from those of templates)
+    "argument-of-lsc-chart": (lambda d, e: lsc_nta(d, "Scenario = Obs(%s, 3);" % e), True),
+    "argument-of-partial-instance-of-lsc-chart": (lambda d, e: lsc_nta(d, "Half(const int hk) = Obs(hk, 3); Scenario = Half(%s);" % e), True),
     # a template that the system line does not name is checked like any other
     "guard-in-unused-template": (lambda d, e: X.nta(d, [T(), X.template("U", locations=[X.location("id7", "M0"), X.location("id8", "M1")], init="id7",
                                                                         transitions=[X.transition("id7", "id8", guard="%s == 1" % e)])], SYS), False),
